@@ -89,10 +89,13 @@ func evalProgram(vm *r.VM, program *syntax.Program, varInputs r.ElementMap) (r.E
 }
 
 func evalExecBlock(vm *r.VM, execBlock *syntax.ExecBlock, params []r.Element) (r.Element, error) {
-	vm.BeginScope()
-	defer vm.EndScope()
+	endScope := vm.BeginBoundScope()
+	defer endScope()
 
 	blockModule := vm.GetCurrentModule()
+	// remember the depth of call stack: when an exception is handled by this block,
+	// the frames of the calls that failed inside it have to be dropped
+	blockDepth := len(vm.GetCallStack())
 	// 1.0 inject 此 value from callFrame's context (for method functions ONLY)
 	if vm.GetCurrentCallFrame() != nil && vm.GetCurrentCallFrame().IsFunctionCallFrame() {
 		thisValue := vm.GetThisValue()
@@ -123,7 +126,7 @@ func evalExecBlock(vm *r.VM, execBlock *syntax.ExecBlock, params []r.Element) (r
 	rtnValue, stmtBlockErr := evalStmtBlock(vm, execBlock.StmtBlock)
 
 	if stmtBlockErr != nil {
-		return handleExceptionSignal(vm, blockModule, execBlock.CatchBlock, stmtBlockErr)
+		return handleExceptionSignal(vm, blockModule, blockDepth, execBlock.CatchBlock, stmtBlockErr)
 	}
 
 	return rtnValue, stmtBlockErr
@@ -154,8 +157,8 @@ func evalStmtBlock(vm *r.VM, stmtBlock *syntax.StmtBlock) (r.Element, error) {
 
 // evalPureStmtBlock - evaluate statement block without classDef/funcDef/import statements
 func evalPureStmtBlock(vm *r.VM, stmtBlock *syntax.StmtBlock) (r.Element, error) {
-	vm.BeginScope()
-	defer vm.EndScope()
+	endScope := vm.BeginBoundScope()
+	defer endScope()
 
 	var rtnValue r.Element
 	var err error
@@ -177,13 +180,14 @@ func evalPureStmtBlock(vm *r.VM, stmtBlock *syntax.StmtBlock) (r.Element, error)
 	return rtnValue, err
 }
 
-func handleExceptionSignal(vm *r.VM, blockModule *r.Module, catchBlock []*syntax.CatchBlockPair, blockErr error) (r.Element, error) {
-	// try to find if the blockErr is an exception signal
-	exception, realErr := extractSignalValue(blockErr, zerr.SigTypeException)
+func handleExceptionSignal(vm *r.VM, blockModule *r.Module, blockDepth int, catchBlock []*syntax.CatchBlockPair, blockErr error) (r.Element, error) {
+	// try to find if the blockErr is an exception: thrown by 抛出, raised by a
+	// built-in operation, or a runtime fault (e.g. division by zero)
+	exception, isException := extractExceptionValue(blockErr)
 
-	// so, if the blockErr is not an exception signal, return it directly
-	if realErr != nil {
-		return nil, realErr
+	// so, if the blockErr is not an exception, return it directly
+	if !isException {
+		return nil, blockErr
 	}
 
 	// by default, we use "异常" to match *value.Exception type exceptions
@@ -204,14 +208,23 @@ func handleExceptionSignal(vm *r.VM, blockModule *r.Module, catchBlock []*syntax
 
 		// if exception block matches exception className
 		if objClassName != "" && classID.GetLiteral() == objClassName {
+			// the exception is handled here: drop the frames left by the calls that
+			// failed inside the protected block (they are kept on the stack only to
+			// print the call chain of an error nobody handles)
+			for len(vm.GetCallStack()) > blockDepth {
+				vm.PopCallFrame()
+			}
 			expCallFrame := r.NewExceptionCallFrame(blockModule, exception)
 			vm.PushCallFrame(expCallFrame)
 			// do execution (with "this" value = exception value)
 			_, err := evalPureStmtBlock(vm, catchBlockItem.StmtBlock)
 			if err == nil {
-				// get return value from exception block
+				// get return value from exception block (空 if it has no 输出)
 				rtnValue := vm.GetReturnValue()
 				vm.PopCallFrame()
+				if rtnValue == nil {
+					rtnValue = value.NewNull()
+				}
 
 				return rtnValue, nil
 			}
@@ -569,8 +582,8 @@ func evalBranchStmt(vm *r.VM, node *syntax.BranchStmt) error {
 }
 
 func evalIterateStmt(vm *r.VM, node *syntax.IterateStmt) error {
-	vm.BeginScope()
-	defer vm.EndScope()
+	endScope := vm.BeginBoundScope()
+	defer endScope()
 
 	// pre-defined key, value variable name
 	var keySlot, valueSlot *r.IDName
@@ -1332,6 +1345,25 @@ func exprsToValues(vm *r.VM, exprs []syntax.Expression) ([]r.Element, error) {
 		params = append(params, pval)
 	}
 	return params, nil
+}
+
+// extractExceptionValue - tell if an error is an exception that a 拦截 block may handle, and
+// get its exception value: the value carried by an exception signal (抛出), an exception raised
+// by a function, or a runtime fault (which is shown to the handler as an 异常 with its message)
+func extractExceptionValue(err error) (r.Element, bool) {
+	switch e := err.(type) {
+	case *zerr.Signal:
+		if e.SigType == zerr.SigTypeException {
+			if extra, ok := e.Extra.(r.Element); ok {
+				return extra, true
+			}
+		}
+	case *value.Exception:
+		return e, true
+	case *zerr.RuntimeError:
+		return value.NewException(e.Error()), true
+	}
+	return nil, false
 }
 
 // extractSignalValue - signal is a special type of error, so we try to extract signal value from input error if it's really a signal - otherwise output the REAL error directly.
